@@ -16,3 +16,10 @@ func gate(op string, key string) error {
 	}
 	return nil
 }
+
+// VerifAbandon is a verification hook (build tag "verif" only): it closes the
+// database connections of the store without any further statement, which is
+// what the death of the process does to them (an open transaction is lost).
+func (s *Storage) VerifAbandon() {
+	s.db.Close()
+}
